@@ -28,17 +28,28 @@ package chaingersender
 //@ ghost var packedInput []byte
 //@ extern (github.com/ethereum/go-ethereum/accounts/abi.ABI).Pack@chaingersender.(*EVMChainGERSender).InjectGER (a, name, args)
 //@   modifies nothing
+// injAdds: transactions the manager accepted; injMined: status answers that reported the transaction mined, safe or
+// finalized (ghost observations at the manager's interface, A8)
+//@ ghost var injAdds int
+//@ ghost var injMined int
 //@ interface github.com/agglayer/aggkit/aggoracle/types.EthTxManager.Add (self, ctx, to, value, data, gasOffset, sidecar)
-//@   modifies nothing
+//@   modifies injAdds
+//@   ensures injAdds == old(injAdds) + ite(result1 == nil, 1, 0)
 //@ interface github.com/agglayer/aggkit/aggoracle/types.EthTxManager.Result (self, ctx, id)
-//@   modifies nothing
+//@   modifies injMined
+//@   ensures injMined == old(injMined) + ite(result1 == nil && (result0.Status == ethtxtypes.MonitoredTxStatusMined || result0.Status == ethtxtypes.MonitoredTxStatusSafe || result0.Status == ethtxtypes.MonitoredTxStatusFinalized), 1, 0)
 //@ func (c *EVMChainGERSender) InjectGER (c, ctx, ger)
 //@   props C15
 //@   requires c != nil && c.l2GERManagerAbi != nil && c.ethTxMan != nil && c.logger != nil
-//@   modifies heap
+//@   modifies heap, injAdds, injMined, ctxEnded
+// success means: exactly one transaction was handed to the manager, and it was seen mined (or safe, or finalized) -
+// unless the context ended first; a failed packing, submission or status query is never read as success
+//@   ensures[success-means-one-transaction-submitted] result == nil ==> injAdds == old(injAdds) + 1
+//@   ensures[and-seen-mined-unless-the-context-ended] result == nil ==> (injMined > old(injMined) || ctxEnded)
 //@   assert call:Pack arg1 == "insertGlobalExitRoot" && len(arg2) == 1 && typeIs(arg2[0], common.Hash) && unbox(arg2[0], common.Hash) == ger
 //@   assert call:Add arg1 != nil && *arg1 == c.l2GERManagerAddr && arg3 == updateGERTxInput
 //@   loop 0 invariant c != nil && c.ethTxMan != nil && c.logger != nil && ticker != nil
+//@   loop 0 invariant injAdds == old(injAdds) + 1 && injMined == old(injMined)
 // the wait for the injection goes on only while the transaction is undecided (C15, "keeps injecting": the oracle calls
 // InjectGER synchronously, so a wait that continues after the transaction was mined, made safe, finalized or failed
 // stops every later injection). Termination itself is not decided; what is proved is that no iteration that saw a
